@@ -585,12 +585,8 @@ theorem s_rule_step (f : Nat) (hR : SRule ctx f) (hAl : SAll ctx f) (hAn : SAny 
         | some index =>
           rw [hidx] at hq
           simp only at hq ⊢
-          cases hI32 : isMatchedI32 a b index with
-          | none => rw [hI32] at hq; cases hq
-          | some bb =>
-            rw [hI32] at hq
-            cases bb <;> simp only [Except.ok.injEq] at hq ⊢ <;>
-              (subst hq; exact ⟨_, rfl, rfl, he⟩)
+          cases hm : isMatched a b index <;> rw [hm] at hq <;>
+            simp only [Except.ok.injEq] at hq ⊢ <;> (subst hq; exact ⟨_, rfl, rfl, he⟩)
     | some rule =>
       have hv' : rule.isoOK = true := by simpa [Rule.isoOK] using hv
       simp only [isolate] at h
@@ -623,26 +619,24 @@ theorem s_rule_step (f : Nat) (hR : SRule ctx f) (hAl : SAll ctx f) (hAn : SAny 
           | some index =>
             rw [hidx] at hq
             simp only at hq ⊢
-            cases hI32 : isMatchedI32 a b index with
-            | none => rw [hI32] at hq; cases hq
-            | some bb =>
-              rw [hI32] at hq
-              cases bb with
-              | false =>
-                simp only [Except.ok.injEq] at hq ⊢
-                subst hq; exact ⟨_, rfl, rfl, he⟩
-              | true =>
-                simp only at hq ⊢
-                rcases hm : matchRule ctx f (isolate rule) n e1 with err | ⟨m, e1'⟩
-                · rw [hm] at hq; cases hq
-                · rw [hm] at hq
-                  obtain ⟨y0, hy0, hag⟩ := hR _ _ _ _ _ hv' he hm
-                  rw [hy0]
-                  rcases agree_cases hag with ⟨rfl, e2', rfl, he'⟩ | ⟨m1, m2, e2', rfl, rfl, he'⟩
-                  · simp only [Except.ok.injEq] at hq ⊢
-                    subst hq; exact ⟨_, rfl, rfl, he'⟩
-                  · simp only [Except.ok.injEq] at hq ⊢
-                    subst hq; exact ⟨_, rfl, rfl, he'⟩
+            cases hmt : isMatched a b index with
+            | false =>
+              rw [hmt] at hq
+              simp only [Except.ok.injEq] at hq ⊢
+              subst hq; exact ⟨_, rfl, rfl, he⟩
+            | true =>
+              rw [hmt] at hq
+              simp only at hq ⊢
+              rcases hm : matchRule ctx f (isolate rule) n e1 with err | ⟨m, e1'⟩
+              · rw [hm] at hq; cases hq
+              · rw [hm] at hq
+                obtain ⟨y0, hy0, hag⟩ := hR _ _ _ _ _ hv' he hm
+                rw [hy0]
+                rcases agree_cases hag with ⟨rfl, e2', rfl, he'⟩ | ⟨m1, m2, e2', rfl, rfl, he'⟩
+                · simp only [Except.ok.injEq] at hq ⊢
+                  subst hq; exact ⟨_, rfl, rfl, he'⟩
+                · simp only [Except.ok.injEq] at hq ⊢
+                  subst hq; exact ⟨_, rfl, rfl, he'⟩
   | all rs kinds =>
     have hv' : Rule.isoOKList rs = true := by simpa [Rule.isoOK] using hv
     simp only [isolate, matchRule] at h ⊢
